@@ -1000,6 +1000,21 @@ func (e *env) main(inClose, closeReturned *bool) {
 				}
 			}
 		}
+		if p.PostSetKey != "" {
+			ctx.Log("post-set", p.PostSetKey, "")
+			a.Configure.Set(p.PostSetKey, p.PostSetVal)
+			obs.Lookup2 = map[string]model.LookupObs{}
+			obs.CfgLate2 = map[string]map[string]string{}
+			for _, inst := range p.Instances {
+				if !p.TypeByName(inst.Type).Lazy || e.names[p.NameOf(inst)] != inst.ID {
+					continue
+				}
+				obs.Lookup2[inst.ID] = lookup(inst)
+				if c := e.cfgOf(inst.ID); c != nil {
+					obs.CfgLate2[inst.ID] = c
+				}
+			}
+		}
 	}
 	if obs.Panic == "" && obs.RunErr && spec.Continue {
 		if spec.ClearFaults {
